@@ -46,6 +46,24 @@ class LayerAnalysis(object):
             return {(lab,)}
         if isinstance(e, ast.Dict) and not e.keys:
             return {()}
+        # a key-restricted view {k: v for k, v in SRC if <test on k>}: same layers as SRC
+        if isinstance(e, (ast.DictComp, ast.GeneratorExp, ast.ListComp)) and \
+                len(e.generators) == 1 and isinstance(e.generators[0].target, ast.Tuple) and \
+                len(e.generators[0].target.elts) == 2 and \
+                all(isinstance(x, ast.Name) for x in e.generators[0].target.elts):
+            g = e.generators[0]
+            k, v = (x.id for x in g.target.elts)
+            if isinstance(e, ast.DictComp):
+                pair = (norm_text(e.key), norm_text(e.value))
+            elif isinstance(e.elt, ast.Tuple) and len(e.elt.elts) == 2:
+                pair = (norm_text(e.elt.elts[0]), norm_text(e.elt.elts[1]))
+            else:
+                pair = None
+            pure = all(not any(isinstance(x, ast.Call) for x in ast.walk(c)) and
+                       {x.id for x in ast.walk(c) if isinstance(x, ast.Name)} <= {k}
+                       for c in g.ifs)
+            if pair == (k, v) and pure:
+                return self.layers(g.iter, state)
         if isinstance(e, ast.Call):
             d = dotted(e.func)
             if d == 'dict':
